@@ -71,6 +71,12 @@ local mt = {__gc = function(o) emit("peek", o.id, (debug.traceback(MAIN, "tb", 0
 local function mkg(n) for i = 1, n do setmetatable({id = i}, mt) end return n end
 local function lvl(d) if d == 0 then mkg(%d %% 3 + 1) collect() return 0 end return 1 + lvl(d - 1) end
 emit("ps13", lvl(%d %% 5)) end`,
+	// frames abandoned by an error (never handed back to a pool) hold the only references to values with
+	// finalisers: at the next collect() those values are garbage in every build - nothing a pool still
+	// points to may keep them alive
+	`do local mt = {__gc = function(o) emit("fin", "abandoned", o.id) end}
+local function hold(d) local o = setmetatable({id = d}, mt) if d == 0 then error("unwind") end return hold(d - 1) + 1 end
+emit("ps15", pcall(hold, %d %% 6 + 1)) collect() emit("ps15b", %d) end`,
 	// two userdata made by the host around Go values that may be equal (small integers: handles), each with
 	// its own finaliser, still referenced when the runtime is closed: every one of them is finalised
 	`do FIN = FIN or {} local a, b = mkv(%d %% 2, function() emit("fin", "va") end), mkv(%d %% 2, function() emit("fin", "vb") end)
